@@ -6,7 +6,8 @@ EXPLANATION = 'Mixed. P (from the real source of api.py, for every number of gro
 
 def p_parts():
     from ._rowfilter import p_rowfilter
-    return [p_rowfilter]
+    from ._pagemask import p_pagemask
+    return [p_rowfilter, p_pagemask]
 
 
 def run(ctx):
